@@ -198,6 +198,36 @@ theorem spec_last_change (c0 : Content) (acts : List Act) (k : Key) (v : Val) :
   intro h
   simp [h, setC]
 
+/-! ## the editor -/
+
+/-- whatever the editor does (learn / unlearn, `reopen(); flush()` after keys that changed the
+    dictionary, being dropped at any moment) and however the writer is scheduled, once the editor
+    has been dropped the file holds the live contents -/
+theorem editor_durable (cfg : Cfg) (hj : cfg.joinFirst = true) (c0 : Content) (t0 : Option FileC)
+    (eacts : List EdAct) (e : EdWorld) (h : edRun cfg { w := init c0 t0, dirtyLevel := 0 } eacts = some e)
+    (hc : e.w.phase = .closed) : e.w.fs .path = some (.complete e.w.buf.live) := by
+  obtain ⟨acts, hr⟩ := edRun_refines h
+  exact durable_full cfg hj c0 t0 acts e.w hr hc
+
+/-- … and the atomicity invariant holds throughout -/
+theorem editor_atomic (cfg : Cfg) (c0 : Content) (t0 : Option FileC) (eacts : List EdAct) (e : EdWorld)
+    (h : edRun cfg { w := init c0 t0, dirtyLevel := 0 } eacts = some e) :
+    ∃ c, e.w.fs .path = some (.complete c) := by
+  obtain ⟨acts, hr⟩ := edRun_refines h
+  exact atomic cfg e.w ⟨c0, t0, acts, hr⟩
+
+/-- the editor calls `reopen()` only right after it dirtied the dictionary, so that `sync` never
+    adopts a writer's result during an editing session: the base layer is only ever replaced by a
+    reload and the pending layer grows until the editor is dropped (a cost, not a loss) -/
+theorem editor_never_adopts (cfg : Cfg) (c0 : Content) (t0 : Option FileC) (eacts : List EdAct) (e : EdWorld)
+    (h : edRun cfg { w := init c0 t0, dirtyLevel := 0 } eacts = some e) (ha : ∀ a ∈ eacts, EnvOk a)
+    (hrun : e.w.phase = .run) (hdl : 0 < e.dirtyLevel) : ∀ wr t, ¬ Adopts e.w wr t := by
+  have hi : EdInv e := edInv_run (fun _ hdl => absurd hdl (Nat.lt_irrefl 0)) ha h
+  intro wr t hA
+  have := hi hrun hdl
+  rw [hA.2.2.2] at this
+  cases this
+
 /-! ## non-vacuity -/
 
 /-- the same schedule on the repaired `Drop`: close reaches `closed` and B is on disk -/
